@@ -63,6 +63,15 @@ def run_case(case, ctx):
         src[(10 ** 6, 10 ** 6 + 1)] = "added after construction"
         ctx.label("source-dict-changed-after-construction")
     ctx.need(len(im) == len(uniq), "ImmutIntervalMap/len/wrong", lambda: "len %r expected %d" % (len(im), len(uniq)))
+    if case.get("again", 0) % 4 == 1 or case.get("again", 0) % 4 == 2 and len(uniq) >= 2:
+        # the very first iteration of the map is abandoned after one item (a `break`), or two iterations start together
+        if case.get("again", 0) % 4 == 1:
+            take(im, 1)
+        else:
+            i1, i2 = iter(im), iter(im)
+            next(i1)
+            next(i2)
+            next(i1)
     it = take(im, len(uniq) + 2)
     ctx.need(it == sorted(m.items()), "ImmutIntervalMap/iter/wrong", lambda: "iteration %r expected %r" % (it, sorted(m.items())))
     pts = sorted({p for iv in uniq for p in iv} | set(case.get("grid", [])))
